@@ -194,6 +194,64 @@ CHECKS = {
         note="Each implementation map is assumed polynomial in its arguments (checked on extra points).",
         technique="TLA+ exact spatial algebra; integer events judged by TLC; exhaustive typed-operator enumeration",
         ref="6 (C20)"),
+    "C03": dict(
+        text="Screw.tla DEFINES the exponential by Chasles' screw form T_p Rot(q) T_{a v} T_{-p} over integer quaternions, "
+             "integer axis points and rational axial translations; TLC checks on every generated case (4065 screws, "
+             "translations, 24 planar rotations) that the motion fixes the axis, shifts axis points by a v, has rotation part "
+             "q and is valid, and exports the exact matrix. The harness forms the exponential coordinates from the same "
+             "integers and checks every exp entry point (vector / matrix argument, unit twist + theta, SE3.Exp, Twist3.exp, "
+             "SO3.Exp, 2D counterparts) against the exact matrix and every log entry point (twist=True/False, SE3.log, "
+             "SE3.Twist3, Twist3(SE3), SO3.log, 2D) against the coordinates, finiteness, algebra form and |w| <= pi, at "
+             "translation scales 1e-6..1e6. Valuations: rotation magnitude log-uniform 1e-12..pi and pi-1e-12..pi, axes "
+             "incl. coordinate and near-degenerate ones, |t| 0..1e6: exp(log T)=T, log(exp S)=S (<= pi-1e-6), one-parameter "
+             "subgroup, exp(S,theta)=exp(theta S), agreement with a power-series expm for |t| <= 1e3, class methods.",
+        note="Exactness only on the rational screw family; elsewhere laws and the series (a defect respecting all of them is missed).",
+        technique="TLA+ screw-motion model (Screw.tla) checked and enumerated by TLC; replay of exp/log entry points; laws on valuations",
+        ref="6 (C03)"),
+    "C05": dict(
+        text="ExactAngles.tla / Ctor.tla fix the documented axis orders as exact products of elementary rotations (OrderSanity, "
+             "ValOK checked by TLC). TLC enumerates angle triples over quarter turns (every singular configuration) and "
+             "Pythagorean angles x 3 orders + 3 aliases, Euler triples and 272 axis-angle rotations. For each exact R: "
+             "constructors reproduce R; rebuilding from the extracted angles (library constructor AND the documented product "
+             "formed by the harness) reproduces R to 1e-6; ranges; deg = rad*180/pi; base functions and SO3/SE3/"
+             "UnitQuaternion methods, SO(3) and SE(3) input, flip on/off; planar (x,y,theta). Offsets 1e-12..1e-1 either side "
+             "of every singular value (pitch +-90, Euler theta 0/pi, angle 0/pi) are valuations.",
+        note="At singular configurations any in-range triple that rebuilds R is accepted.",
+        technique="TLA+ exact angle-set model enumerated by TLC; extraction/rebuild replay; sampled offsets",
+        ref="6 (C05)"),
+    "C11": dict(
+        text="Interp.tla: for end poses m0 p^n the interpolant at s = k/n is exactly [q0 p^k, t0 + (k/n)(t1 - t0)] (Endpoints "
+             "invariant; FixedAxis, AllValid theorems). 3136 curves (n <= 4, 7 starts x 7 steps x 16 translation pairs, 128 "
+             "planar) are replayed through trinterp (SO3 / SE3), SO3/SE3.interp, UnitQuaternion.interp, slerp (shortest on/off, "
+             "with/without start), trinterp2, SO2/SE2.interp, scalar and vector s, scales 1e-3..1e3; where the shorter arc is "
+             "not requested the other arc about the same axis is accepted. Valuations: relative angle 1e-12..pi-1e-6, s in "
+             "{0, 1e-12, .., 1-1e-12, 1}: validity, linear translation, fixed axis and angle proportional to s; s outside "
+             "[0,1] must raise for the 3D matrix and quaternion interpolators.",
+        note="Antipodal quaternion pairs are excluded as in the statement.",
+        technique="TLA+ exact interpolation model enumerated by TLC; curve replay through every interpolator; valuations",
+        ref="6 (C11)"),
+    "C14": dict(
+        text="Normalise.tla: directions of integer data are exact - matrix normalisation keeps a, n || o x a, o' || a x (o x a) "
+             "(FrameOK), vectors/quaternions keep direction, unit twists have unit rotational or (irrotational) translational "
+             "part, angle wrapping on quarter turns is arithmetic mod 4 (WrapOK); TLC enumerates 24 cube rotations x integer "
+             "noise E/K x translations, integer vectors/twists, all quarter-turn pairs in -9..9. trnorm, SO3/SE3.norm, "
+             "trnorm2, SO2/SE2.norm, unitvec(_norm), unit, Quaternion.unit, UnitQuaternion(), unittwist(_norm), unittwist2, "
+             "Twist3/Twist2.unit, angdiff are checked for validity, idempotence (1e-12), valid-input-unchanged, preserved "
+             "translation / approach axis / plane, at noise 1e-15..1e-2, norms 1e-6..1e6, zero-threshold twists, real angles "
+             "within +-1e3 incl. multiples of pi.",
+        note="For real-valued noise the expected directions are cross products of the input columns formed by the harness.",
+        technique="TLA+ direction-preservation model enumerated by TLC; replay with magnitude valuations",
+        ref="6 (C14)"),
+    "C18": dict(
+        text="Shares Screw.tla with C03: zero-pitch screws about integer axes through integer points with AxisFixed / "
+             "AxialShift / ValidAll checked by TLC. Twist3.Revolute/Prismatic and Twist2.Revolute/Prismatic are built from "
+             "the same integers with axis lengths 1e-3..1e6; exp(theta S) (scalar / vector theta, rad / deg, S*theta, "
+             "theta*S, se3 form) is compared with the exact matrix and, for theta = k pi/2 (k = -4..4), with exact integer "
+             "powers; axis points must stay fixed and R u = u, trace = 1 + 2 cos(theta) for arbitrary theta; pitch, pole, "
+             "line, theta, isprismatic, inverse are checked against the axis data.",
+        note="For theta off the exact family the axis-fixed / axis-invariant / trace conditions characterise the rotation.",
+        technique="TLA+ screw-motion model enumerated by TLC; replay through the twist classes",
+        ref="6 (C18)"),
 }
 
 ENGINE = {"name": "tlc-replay", "path": "/verif/check",
